@@ -1,13 +1,14 @@
 ID = 'C03'
 GROUPS = ['common', 'plugin_api']
-CXX_SOURCES = []
+CXX_SOURCES = ['olad/OlaServerServiceImpl.cpp', 'olad/PluginManager.cpp', 'olad/ClientBroker.cpp']
 MAX_OPS = 48
 
 def gen_consts(v):
     import os
     ents = [(n, 'ola::dmx::' + n) for n in
             ('SOURCE_PRIORITY_MIN', 'SOURCE_PRIORITY_DEFAULT', 'SOURCE_PRIORITY_MAX')]
-    return v.gen_consts_cpp(ID, ['ola/dmx/SourcePriorities.h'], ents,
+    ents += [(n, 'ola::' + n) for n in ('PRIORITY_MODE_INHERIT', 'PRIORITY_MODE_STATIC')]
+    return v.gen_consts_cpp(ID, ['ola/dmx/SourcePriorities.h', 'olad/PortConstants.h'], ents,
                             os.path.join(v.VERIF, 'props', ID, 'coq', 'Gen.v'))
 
 # r<k> = return value of op k, d<k> = state dump after op k (per-port universe/priority/mode,
@@ -16,28 +17,41 @@ def gen_consts(v):
 SPEC_KEYS = ['d'] + ['r%d' % i for i in range(MAX_OPS)] + ['d%d' % i for i in range(MAX_OPS)]
 INTERNAL_KEYS = []
 
-RULE = ('histories of patch/unpatch/set-priority/GC/client add+remove/port data/device stop over 1-3 devices '
-        '(all four AllowLooping x AllowMultiPortPatching policies, ports without device), 2-7 ports with plugin '
-        'veto sets, 3-5 universe numbers; directed prefixes aim at every branch of GenericPatchPort (same universe, '
-        'loop refusal, multi-port refusal, veto on a fresh port, veto on a patched port followed by GC and a use of '
-        'the port, null port) and of SetPriorityStatic (199/200/201/255 and uint8 wrap); state compared after every '
-        'op; non-trivial = at least one successful patch and one later state-changing op; distinct = distinct model '
-        'output trace')
-ASSUMPTIONS = ['PreSetUniverse(old, new) of a port depends only on the number of the new universe and accepts '
-               'new == NULL (unpatch); PostSetUniverse does not re-enter the PortManager',
+RULE = ('histories of patch/unpatch/set-priority/GC/client add+remove/port data/device stop/DeviceManager register+'
+        'unregister+unregister-all/RegisterForDmx register+unregister over 1-3 devices (all four AllowLooping x '
+        'AllowMultiPortPatching policies, ports without device), 2-7 ports with number-based veto sets and '
+        'state-dependent vetoes on a sibling port (ShowNet style B, patch-only b, same-universe e, un-patch-only u), '
+        'preloaded port preferences (incl. unparsable 256/300/2^32), 3-5 universe numbers; directed prefixes aim at '
+        'every branch of GenericPatchPort / GenericUnPatchPort (same universe, loop refusal, multi-port refusal, veto '
+        'on a fresh port, veto on a patched port + GC + use, refused un-patch + GC + use, null port), of '
+        'SetPriorityStatic (199/200/201/255, uint8 wrap), of RestorePortSettings (restore vetoed / refused by policy), '
+        'unregister+stop+GC+re-register, and RegisterForDmx(UNREGISTER) on a missing universe; state compared after '
+        'every op; non-trivial = at least one successful patch and one later state-changing op; distinct = distinct '
+        'model output trace')
+ASSUMPTIONS = ['PreSetUniverse(old, new) is a function of the port, the number of the new universe (or NULL) and the '
+               'current patching of the ports of the same device; it and PostSetUniverse do not re-enter the '
+               'PortManager or change any patching themselves',
                'operator new does not fail (GetUniverseOrCreate never returns NULL)',
-               'clients are attached as olad does: sink = GetUniverseOrCreate+AddSinkClient, source and removals '
-               'via GetUniverse on an existing universe',
+               'clients are attached as olad does: sink through RegisterForDmx (or GetUniverseOrCreate+AddSinkClient), '
+               'source and removals via GetUniverse on an existing universe',
+               'devices handed to the DeviceManager have a non-empty UniqueId (an owner plugin); a device is not '
+               'deleted while registered',
                'object ids in the model are never reused; a real allocator may reuse an address, which can only '
                'hide, not create, a dangling dereference']
-TRUSTED = ['modelled rather than verified: PortManager.cpp (GenericPatchPort with fixes/01 applied, GenericUnPatchPort, '
-           'CheckLooping/CheckMultiPort/CheckForPortMatchingUniverse, SetPriorityStatic/Inherit), Port.cpp '
+TRUSTED = ['modelled rather than verified: PortManager.cpp (GenericPatchPort with fixes/01, GenericUnPatchPort with '
+           'fixes/02, CheckLooping/CheckMultiPort/CheckForPortMatchingUniverse, SetPriorityStatic/Inherit), Port.cpp '
            'SetUniverse/SetPriority/DmxChanged, Universe.cpp GenericAddPort/GenericRemovePort/IsActive/'
            'Add+Remove Source/SinkClient, UniverseStore.cpp GetUniverse(OrCreate)/AddUniverseGarbageCollection/'
-           'GarbageCollectUniverses, Device.cpp Stop/DeleteAllPorts/GenericDeletePort',
-           'not modelled: PortBroker contents, RDM discovery on patch and UID maps, export-map counters, DMX merging '
-           '(C01), DeviceManager persistence of patchings (C18), content of the saved settings',
-           'SOURCE_PRIORITY_MAX/DEFAULT regenerated from include/ola/dmx/SourcePriorities.h into Gen.v']
+           'GarbageCollectUniverses, Device.cpp Stop/DeleteAllPorts/GenericDeletePort, PortBroker.cpp AddPort/'
+           'RemovePort, DeviceManager.cpp RegisterDevice/UnregisterDevice/UnregisterAllDevices/ReleaseDevice/'
+           'Save+RestorePortPatchings/Priority, OlaServerServiceImpl::RegisterForDmx with fixes/03',
+           'the sibling view handed to the veto function is computed eagerly in the model (the code evaluates the '
+           'hook only when SetUniverse is reached); device aliases and time-code port set not modelled',
+           'not modelled: RDM discovery on patch and UID maps, PortBroker RDM request routing, export-map counters, '
+           'DMX merging (C01), file format / parsing of the preferences (C18), content of the saved universe settings',
+           'the PortBroker and port-preference observables (b<k>, f<k>) and the GC candidate set (c<k>) are compared '
+           'as internal keys: the property text does not mention them',
+           'SOURCE_PRIORITY_MAX/DEFAULT and PRIORITY_MODE_* regenerated from the headers into Gen.v']
 
 UNIS = [0, 1, 2, 3, 7, 63999, 4294967295]
 PRIOS = [0, 1, 99, 100, 101, 199, 200, 201, 254, 255, 256, 300, 456, 511]
@@ -56,14 +70,27 @@ def mk_cfg(rng):
         veto = []
         if rng.random() < 0.4:
             veto = sorted(rng.sample(pool, rng.choice([1, 1, 2])))
-        ports.append([d, inp, cap, veto])
+        # [dev, input?, cap, veto numbers, state rule, pref universe, pref priority, pref mode]
+        ports.append([d, inp, cap, veto, '-', '-', '-', '-'])
+    for i in range(np_):
+        # state-dependent veto on a sibling port (ShowNet style and variants)
+        if rng.random() < 0.25:
+            sib = [j for j in range(np_) if j != i and ports[j][0] == ports[i][0]]
+            k = rng.choice(sib) if sib and rng.random() < 0.9 else rng.randrange(np_)
+            ports[i][4] = rng.choice('Bbeu') + str(k)
+        # preloaded port preferences
+        if rng.random() < 0.3:
+            ports[i][5] = str(rng.choice(pool + [4294967296])) if rng.random() < 0.8 else '-'
+            ports[i][6] = str(rng.choice(PRIOS)) if rng.random() < 0.6 else '-'
+            ports[i][7] = str(rng.choice([0, 0, 1, 2, 300])) if rng.random() < 0.5 else '-'
     return devs, ports, pool
 
 
 def cfg_s(devs, ports):
     ds = ','.join(str(d) for d in devs) if devs else '-'
-    ps = ','.join('%d:%s:%d:%s' % (d, 'i' if inp else 'o', cap, '.'.join(map(str, v)) if v else '-')
-                  for d, inp, cap, v in ports) if ports else '-'
+    ps = ','.join('%d:%s:%d:%s:%s:%s:%s:%s' % (d, 'i' if inp else 'o', cap, '.'.join(map(str, v)) if v else '-',
+                                                 rl, pu, pp, pm)
+                  for d, inp, cap, v, rl, pu, pp, pm in ports) if ports else '-'
     return ds, ps
 
 
@@ -73,9 +100,12 @@ def rand_op(rng, devs, ports, pool):
     p = rng.randrange(np_) if rng.random() < 0.97 else np_ + rng.randrange(2)
     n = rng.choice(pool)
     c = rng.randrange(3)
-    if r < 0.45: return 'P.%d.%d' % (p, n)
-    if r < 0.55: return 'U.%d' % p
-    if r < 0.67: return 'G'
+    if r < 0.40: return 'P.%d.%d' % (p, n)
+    if r < 0.50: return 'U.%d' % p
+    if r < 0.60: return 'G'
+    if r < 0.63: return 'R.%d' % rng.randrange(len(devs) + 1)
+    if r < 0.655: return 'N.%d' % rng.randrange(len(devs) + 1)
+    if r < 0.67: return rng.choice(['NA', 'RA.%d.%d' % (n, c), 'RU.%d.%d' % (n, c), 'RU.%d.%d' % (n, c)])
     if r < 0.72: return 'S.%d.%d' % (p, rng.choice(PRIOS + [rng.randrange(256)]))
     if r < 0.75: return 'I.%d' % p
     if r < 0.80: return 'KA.%d.%d' % (n, c)
@@ -88,7 +118,7 @@ def rand_op(rng, devs, ports, pool):
 
 def directed(rng, devs, ports, pool):
     """prefixes aimed at the branches of GenericPatchPort"""
-    kind = rng.randrange(7)
+    kind = rng.randrange(12)
     np_ = len(ports)
     ops = []
     if kind == 0:
@@ -132,6 +162,51 @@ def directed(rng, devs, ports, pool):
         # priorities around the clamp
         p = rng.randrange(np_)
         ops = ['S.%d.%d' % (p, v) for v in rng.sample(PRIOS, 4)] + ['I.%d' % p, 'S.%d.%d' % (p, rng.choice(PRIOS))]
+    elif kind == 7:
+        # register restores preloaded / saved settings (patch may be vetoed or refused by policy)
+        d = rng.randrange(len(devs))
+        mine = [i for i in range(np_) if ports[i][0] == d]
+        for i in mine:
+            if rng.random() < 0.7:
+                ports[i][5] = str(rng.choice(pool)); ports[i][6] = str(rng.choice(PRIOS)); ports[i][7] = str(rng.choice([0, 1]))
+        ops = ['R.%d' % d, 'R.%d' % d, 'G']
+    elif kind == 8:
+        # patch, unregister (saves), device stop or unpatch, GC, register again (restores)
+        d = rng.randrange(len(devs))
+        mine = [i for i in range(np_) if ports[i][0] == d]
+        ops = ['R.%d' % d] + ['P.%d.%d' % (i, rng.choice(pool)) for i in mine]
+        ops += ['S.%d.%d' % (i, rng.choice(PRIOS)) for i in mine[:2]] + ['N.%d' % d]
+        if rng.random() < 0.5:
+            ops += ['X.%d' % d, 'G', 'R.%d' % d, 'N.%d' % d]
+        else:
+            ops += ['U.%d' % i for i in mine] + ['G', 'N.%d' % d, 'R.%d' % d, 'NA', 'G']
+    elif kind == 9:
+        # a refused un-patch: p stays patched while its sibling k is patched
+        d = rng.randrange(len(devs))
+        devs[d] = 3
+        idx = rng.sample(range(np_), 2)
+        p, k = idx
+        ports[p][0] = d; ports[k][0] = d
+        ports[p][3] = []; ports[k][3] = []; ports[k][4] = '-'
+        ports[p][4] = rng.choice('uB') + str(k)
+        a, b = rng.sample(pool, 2)
+        ops = ['P.%d.%d' % (p, a), 'P.%d.%d' % (k, b), 'U.%d' % p, 'U.%d' % k, 'G',
+               rng.choice(['D.%d' % p, 'U.%d' % p, 'P.%d.%d' % (k, a), 'X.%d' % d, 'N.%d' % d])]
+    elif kind == 10:
+        # state-dependent refusal of a patch (ShowNet: sibling already patched), then the sibling leaves
+        d = rng.randrange(len(devs))
+        devs[d] = 3
+        p, k = rng.sample(range(np_), 2)
+        ports[p][0] = d; ports[k][0] = d
+        ports[p][3] = []; ports[k][3] = []; ports[k][4] = '-'
+        ports[p][4] = rng.choice('Bbe') + str(k)
+        a, b = rng.sample(pool, 2)
+        ops = ['P.%d.%d' % (k, a), 'P.%d.%d' % (p, a), 'P.%d.%d' % (p, b), 'P.%d.%d' % (p, a), 'G',
+               'U.%d' % k, 'P.%d.%d' % (p, a), 'G']
+    elif kind == 11:
+        # RegisterForDmx(UNREGISTER) for a universe that does not exist must not leave one behind
+        a = rng.choice(pool)
+        ops = ['RU.%d.1' % a, 'G', 'RA.%d.1' % a, 'RU.%d.2' % a, 'G', 'RU.%d.1' % a, 'G']
     else:
         # device stop with patched ports, then GC and ops on the dead ports
         d = rng.randrange(len(devs))
@@ -172,17 +247,20 @@ def nontrivial(payload, md):
 
 
 LEVEL_TEXT = ('Coq theorems over an executable model of port patching (PortManager patch/unpatch/priority, port '
-              'SetUniverse with plugin veto, universe port/client lists, UniverseStore creation and garbage '
-              'collection, Device::Stop), for every configuration of devices/policies/veto sets and every operation '
-              'history: universe lists port <=> port reports it and the universe is live, at most one universe per '
-              'port, loop / multi-port policies, priorities <= 200, store = live objects, inactive universes are GC '
-              'candidates and are collected and saved exactly once, no operation dereferences a collected universe, '
-              'PatchPort returns true <=> the port ended on the requested universe.  The model is the code with '
-              'fixes/01 applied and is tied to the C++ by a differential correspondence check after every operation '
-              '(ASan/UBSan build of the working tree).  Device register/unregister persistence is left to C18; '
-              'PortBroker contents and RDM discovery on patch are not modelled.')
+              'SetUniverse with an arbitrary state-dependent plugin veto, universe port/client lists, UniverseStore '
+              'creation and garbage collection, Device::Stop, PortBroker membership, DeviceManager register/unregister '
+              'with the port preferences, RegisterForDmx), for every configuration and every operation history: '
+              'universe lists port <=> port reports it and the universe is live, at most one universe per port, loop / '
+              'multi-port policies, priorities <= 200, store = live objects, unused universes are GC candidates and are '
+              'collected and saved exactly once, no operation dereferences a collected universe, PatchPort returns true '
+              '<=> the port ended on the requested universe, an existing port is in the broker <=> patched, unregister+'
+              'stop leaves none of the device\'s ports listed.  The model is the code with fixes/01-03 applied and is '
+              'tied to the C++ by a differential correspondence check after every operation (ASan/UBSan build of the '
+              'working tree).  Not covered: the PortBroker keeps the keys of ports deleted by Device::Stop (proved '
+              'as stated, reported as a finding outside the property text); preference file parsing is C18.')
 LEVEL_NOTE = ('Trusted: Coq kernel, extraction (ExtrOcamlBasic), OCaml/C++ glue, generator coverage of the '
-              'correspondence (model = code is validated by differential testing, not proved); plugin veto assumed to '
-              'depend only on the new universe number and never to refuse an unpatch.')
+              'correspondence (model = code is validated by differential testing, not proved); the plugin veto is '
+              'assumed to be a function of the port, the requested universe and the patching of the same device\'s '
+              'ports, without side effects on the patching.')
 TECHNIQUE = 'Coq invariant proof on hand-written executable model + extracted-model/implementation differential correspondence'
 DESIGN_REF = 'DESIGN.md §4 C03'
